@@ -28,7 +28,10 @@ DRIVERS = ['FinVerif.Driver.C12']
 RULE = ('seeded parameter sets: S/K in [0.3,3] (half of them in [0.7,1.4]), t in {0.1,0.25,0.5,1,2}, r in '
         '{0,1,3,5,10}%, q in {0, r, r+3%, max(0,r-2%), 8%}, sigma in {5,10,20,30,50,100}%, both option sides, every '
         'BlackScholesTypes member; CRR step counts 2..120 (quick) / 2..300 for the model correspondence and {52, 416} for convergence; '
-        'FD grids {500, 2000}. Non-trivial = the pricer returned a finite number and the option is not worthless '
+        'FD grids {500, 2000}; a non-positive-rate set (r in {-3,-2,-1,-0.5}%, q in {0, -0.5%, r, r-1%, 2%}, t up to 3y, '
+        'spots biased in the money) for CRR(200) / FD / EquityAmericanOption / FXVanillaOption(AMERICAN); FD parameters '
+        'theta in {0.5,0.75,1}, smooth, num_std, num_time_steps; EquityBinomialTree: 7 payoff types x 2 exercise types x '
+        'S/K in {0.3..2.5} x steps {10,50,100,200}. Non-trivial = the pricer returned a finite number and the option is not worthless '
         '(> 1e-8 K); cases are distinct draws from continuous laws.')
 
 # measured on the clean tree (notes/C12.md), relative to the strike K ----------------------------------------
@@ -42,6 +45,9 @@ DOM_TOL_TREE = 1e-10      # American >= European / intrinsic on the SAME lattice
 DOM_TOL_FD = 5e-6         # FD / PSOR American vs the scheme's own European (SOR residual acc=1e-13)
 LSMC_TOL = 0.03           # LSMC (10k paths, seed 42) vs CRR American, relative to K
 AGREE_TOL = 4e-3          # CRR(52) vs FD American / K (dominated by the CRR error)
+AGREE_TOL_200 = 8e-4      # CRR(200/201 averaged) vs FD American / K, incl. negative rates (measured, see notes)
+FD_THETA_EURO = {0.5: 2e-5, 0.75: 1e-4, 1.0: 3e-4}   # FD(2001 nodes, 1000 steps) European error / K per theta (time error O(dt) for theta != 0.5)
+EBT_EURO = 4e-3           # EquityBinomialTree (n, n+1 averaged, n >= 50) vanilla European vs analytic / K
 APPROX_TOL = 0.012        # BAW vs CRR(400) inside the validity domain (r>0, t<=1, sigma<=50%) / K
 
 
@@ -58,6 +64,18 @@ def gen_case(rng):
     r = rng.choice([0.0, 0.01, 0.03, 0.05, 0.1])
     q = rng.choice([0.0, r, r + 0.03, max(0.0, r - 0.02), 0.08])
     v = rng.choice([0.05, 0.1, 0.2, 0.3, 0.5, 1.0])
+    return dict(S=S, t=t, K=K, r=r, q=q, vol=v)
+
+
+def gen_case_neg(rng):
+    """non-positive rates (the property's quantifier: 'puts with non-positive rates', r = 0, r < q): r < 0 with
+    q = 0, q < 0, q = r, q > 0; spots biased in the money so that early exercise matters."""
+    K = 100.0
+    S = K * (rng.uniform(0.5, 2.0) if rng.random() < 0.6 else rng.uniform(0.9, 1.1))
+    t = rng.choice([0.5, 1.0, 2.0, 3.0])
+    r = rng.choice([-0.03, -0.02, -0.01, -0.005])
+    q = rng.choice([0.0, 0.0, -0.005, r, r - 0.01, 0.02])
+    v = rng.choice([0.1, 0.15, 0.2, 0.3, 0.5])
     return dict(S=S, t=t, K=K, r=r, q=q, vol=v)
 
 
@@ -134,15 +152,15 @@ def run(ctx):
         return max(c['S'] - c['K'], 0.0) if call else max(c['K'] - c['S'], 0.0)
 
     def no_early_exercise(c, call):
-        # call with no dividends and r >= 0; put with r <= 0 (here r = 0) and q >= 0
-        return (call and c['q'] == 0.0 and c['r'] >= 0.0) or ((not call) and c['r'] == 0.0 and c['q'] >= 0.0)
+        # call with no (or negative) dividends and r >= 0; put with non-positive rates and q >= 0
+        return (call and c['q'] <= 0.0 and c['r'] >= 0.0) or ((not call) and c['r'] <= 0.0 and c['q'] >= 0.0)
 
     # ------------------------------------------------------------------ 1. crr_tree_val vs the Lean model
     rng = ctx.rng('crr-model')
     ops, impl, inputs = [], [], []
     nmod = 400 if ctx.quick() else 5000
     for i in range(nmod):
-        c = gen_case(rng)
+        c = gen_case(rng) if i % 3 else gen_case_neg(rng)      # one third with r < 0 (q <= 0 and q > 0)
         n = rng.choice([2, 3, 4, 5, 7, 10, 21, 52, 53]) if rng.random() < 0.8 else rng.randrange(2, 120 if ctx.quick() else 300)
         ty = rng.choice([1, 2, 3, 4])
         ev = rng.choice([0, 1])
@@ -286,6 +304,267 @@ def run(ctx):
                               clause='agreement')
 
     lap('fd-psor')
+    # ------------------------------------------------------------------ 3b. non-positive rates: CRR / FD, calls and puts, q <= 0 and q > 0
+    rng = ctx.rng('negrates')
+    nneg = 260 if ctx.quick() else 3000
+    nneg_fd = 24 if ctx.quick() else 300
+    for i in range(nneg):
+        c = gen_case_neg(rng)
+        for call in (True, False):
+            eo, ao = (O.EUROPEAN_CALL, O.AMERICAN_CALL) if call else (O.EUROPEAN_PUT, O.AMERICAN_PUT)
+            case = dict(c, side='call' if call else 'put', scheme='CRR_TREE', num_steps=200)
+            e = price(T.CRR_TREE, c, eo, num_steps_per_year=200)
+            a = price(T.CRR_TREE, c, ao, num_steps_per_year=200)
+            if e[0] != 'f' or a[0] != 'f' or math.isnan(e[1]) or math.isnan(a[1]):
+                ctx.violation('CRR tree returned no value (non-positive rates)', dict(case, european=e, american=a), clause='returns-value')
+                continue
+            an = euro(c, call)
+            err = abs(e[1] - an) / c['K']
+            madd('CRR200 r<0:european-err/K', err)
+            if err > CRR52_EURO:
+                ctx.violation('CRR tree (200 steps, r < 0) European value far from the analytic price',
+                              dict(case, tree=e[1], analytic=an), clause='european-converges')
+            if a[1] < e[1] - DOM_TOL_TREE * c['K']:
+                ctx.violation('CRR American value below the European value on the same lattice (r < 0)',
+                              dict(case, american=a[1], european=e[1]), clause='american-ge-european')
+            if a[1] < intrinsic(c, call) - DOM_TOL_TREE * c['K']:
+                ctx.violation('CRR American value below intrinsic (r < 0)', dict(case, american=a[1], intrinsic=intrinsic(c, call)),
+                              clause='american-ge-intrinsic')
+            if no_early_exercise(c, call):
+                d = abs(a[1] - e[1]) / c['K']
+                madd('CRR r<0:no-early-exercise |amer-euro|/K', d)
+                if d > 1e-9:
+                    ctx.violation('CRR American != European although early exercise is never optimal (put, r <= 0, q >= 0)',
+                                  dict(case, american=a[1], european=e[1]), clause='no-early-exercise-equal')
+            if i < nneg_fd:
+                fa = price(T.FINITE_DIFFERENCE, c, ao)
+                fe = price(T.FINITE_DIFFERENCE, c, eo)
+                fcase = dict(case, scheme='FINITE_DIFFERENCE')
+                if fa[0] != 'f' or fe[0] != 'f':
+                    ctx.violation('FD returned no value (r < 0)', dict(fcase, european=fe, american=fa), clause='returns-value')
+                    continue
+                trunc = abs(c['r'] - c['q']) * c['t'] > c['vol'] * math.sqrt(c['t'])
+                ferr = abs(fe[1] - an) / c['K']
+                madd('FD r<0:european-err/K', ferr)
+                if ferr > (FD_TRUNC_EURO if trunc else FD_EURO):
+                    ctx.violation('FD European value far from the analytic price (r < 0)', dict(fcase, scheme_value=fe[1], analytic=an),
+                                  clause='european-converges')
+                if fa[1] < intrinsic(c, call) - DOM_TOL_FD * c['K'] or fa[1] < fe[1] - DOM_TOL_FD * c['K']:
+                    ctx.violation('FD American value below intrinsic / European (r < 0)',
+                                  dict(fcase, american=fa[1], european=fe[1], intrinsic=intrinsic(c, call)), clause='american-ge-intrinsic')
+                d = abs(a[1] - fa[1]) / c['K']
+                madd('CRR200-vs-FD american |diff|/K (r<0)', d)
+                if d > AGREE_TOL_200:
+                    ctx.violation('CRR and FD American values disagree (r < 0)', dict(case, crr=a[1], fd=fa[1]), clause='agreement')
+    ctx.count('non-positive rates: CRR / FD', 4 * nneg + 4 * nneg_fd, 4 * nneg + 4 * nneg_fd)
+    lap('negrates')
+
+    # ------------------------------------------------------------------ 3c. the product observation points
+    from financepy.utils.date import Date
+    from financepy.market.curves.discount_curve_flat import DiscountCurveFlat
+    from financepy.products.equity.equity_american_option import EquityAmericanOption
+    from financepy.products.fx.fx_vanilla_option import FXVanillaOption
+    rng = ctx.rng('products')
+    value_dt = Date(1, 3, 2021)
+    nprod = 24 if ctx.quick() else 300
+    for i in range(nprod):
+        c = gen_case_neg(rng) if i % 2 == 0 else gen_case(rng)
+        years = rng.choice([1, 2, 3])
+        expiry_dt = Date(1, 3, 2021 + years)
+        c['t'] = (expiry_dt - value_dt) / 365.0
+        call = rng.random() < 0.5
+        ao = O.AMERICAN_CALL if call else O.AMERICAN_PUT
+        intr = intrinsic(c, call)
+        an = euro(c, call)
+        # EquityAmericanOption with the CRR model object
+        case = dict(c, side='call' if call else 'put', product='EquityAmericanOption', scheme='CRR_TREE', num_steps=200,
+                    value_dt='1-MAR-2021', expiry_years=years)
+        try:
+            disc = DiscountCurveFlat(value_dt, c['r'])
+            divs = DiscountCurveFlat(value_dt, c['q'])
+            v = float(quiet(EquityAmericanOption(expiry_dt, c['K'], ao).value, value_dt, c['S'], disc, divs,
+                            BlackScholes(c['vol'], T.CRR_TREE, 200)))
+        except Exception as e:  # noqa: BLE001
+            ctx.violation(f'EquityAmericanOption.value raised {type(e).__name__}', case, clause='returns-value')
+            continue
+        if v < intr - 1e-8 * c['K']:
+            ctx.violation('EquityAmericanOption value below intrinsic', dict(case, american=v, intrinsic=intr), clause='american-ge-intrinsic')
+        if v < an - CRR52_EURO * c['K']:
+            ctx.violation('EquityAmericanOption value below the European value', dict(case, american=v, european=an), clause='american-ge-european')
+        # same inputs as the product derives them (cc_rate uses the curve's day count: differs from the flat rate
+        # across a leap year -- that time-axis matter is C01/C02's subject, not this property's)
+        c_eff = dict(c, r=float(disc.cc_rate(expiry_dt)), q=float(divs.cc_rate(expiry_dt)))
+        mv = price(T.CRR_TREE, c_eff, ao, num_steps_per_year=200)
+        if mv[0] == 'f':
+            madd('EquityAmericanOption vs model object |diff|/K', abs(v - mv[1]) / c['K'])
+            if abs(v - mv[1]) > 1e-9 * c['K']:
+                ctx.violation('EquityAmericanOption disagrees with BlackScholes(CRR_TREE).value at the same inputs',
+                              dict(case, product_value=v, model_value=mv[1]), clause='agreement')
+        # FXVanillaOption AMERICAN (its own 100-step averaged tree); spot S/100, strike 1
+        fcase = dict(c, side='call' if call else 'put', product='FXVanillaOption', spot_fx=c['S'] / 100.0, strike_fx=1.0,
+                     rd=c['r'], rf=c['q'], value_dt='1-MAR-2021', expiry_years=years)
+        try:
+            dom = DiscountCurveFlat(value_dt, c['r'])
+            fgn = DiscountCurveFlat(value_dt, c['q'])
+            fx = FXVanillaOption(expiry_dt, 1.0, 'EURCHF', ao, 1000000, 'CHF')
+            fv = float(quiet(fx.value, value_dt, c['S'] / 100.0, dom, fgn, BlackScholes(c['vol']))['v'])
+        except Exception as e:  # noqa: BLE001
+            ctx.violation(f'FXVanillaOption.value (American) raised {type(e).__name__}', fcase, clause='returns-value')
+            continue
+        fintr = intr / 100.0
+        if fv < fintr - 1e-8:
+            ctx.violation('FXVanillaOption American value below intrinsic', dict(fcase, american=fv, intrinsic=fintr), clause='american-ge-intrinsic')
+        if fv < an / 100.0 - 2.0 * CRR52_EURO:
+            ctx.violation('FXVanillaOption American value below the European value', dict(fcase, american=fv, european=an / 100.0),
+                          clause='american-ge-european')
+    ctx.count('EquityAmericanOption / FXVanillaOption(AMERICAN)', 2 * nprod, 2 * nprod)
+    lap('products')
+
+    # ------------------------------------------------------------------ 3d. FD resolution / scheme parameters accepted by the model object
+    rng = ctx.rng('fd-params')
+    nfp = 30 if ctx.quick() else 400
+    for i in range(nfp):
+        c = gen_case(rng)
+        c['vol'] = max(c['vol'], 0.1)
+        if rng.random() < 0.6:
+            c['r'] = max(c['r'], 0.03)          # the discount term matters
+        theta = [0.5, 0.75, 1.0][i % 3]
+        params = {'theta': theta}
+        if rng.random() < 0.4:
+            params['smooth'] = True
+        if rng.random() < 0.3:
+            params['num_std'] = 6
+        if rng.random() < 0.3:
+            params['num_time_steps'] = 1500
+        trunc = abs(c['r'] - c['q']) * c['t'] > c['vol'] * math.sqrt(c['t'])
+        for call in (True, False):
+            eo = O.EUROPEAN_CALL if call else O.EUROPEAN_PUT
+            an = euro(c, call)
+            case = dict(c, side='call' if call else 'put', scheme='FINITE_DIFFERENCE', params=params)
+            e = price(T.FINITE_DIFFERENCE, c, eo, params=dict(params))
+            if e[0] != 'f' or math.isnan(e[1]):
+                ctx.violation('FD returned no value for accepted parameters', dict(case, got=e), clause='returns-value')
+                continue
+            err = abs(e[1] - an) / c['K']
+            madd(f'FD theta={theta}:european-err/K' + (' (truncation regime)' if trunc else ''), err)
+            tol = max(FD_THETA_EURO[theta], FD_TRUNC_EURO if trunc else 0.0)
+            if err > tol:
+                ctx.violation(f'FD (theta={theta}) European value is {err:.2e} K from the analytic price (bound {tol:g})',
+                              dict(case, scheme_value=e[1], analytic=an), clause='european-converges')
+            if i % 5 == 0:
+                p2 = dict(params, num_samples=500)
+                p2.pop('num_time_steps', None)
+                e5 = price(T.FINITE_DIFFERENCE, c, eo, params=p2)
+                if e5[0] == 'f':
+                    err5 = abs(e5[1] - an) / c['K']
+                    madd(f'FD500 theta={theta}:european-err/K', err5)
+                    if err5 > max(8.0 * tol, FD500_EURO):
+                        ctx.violation(f'FD (theta={theta}, 500 nodes) European error above its bound', dict(case, err=err5),
+                                      clause='european-converges')
+            if call and c['q'] == 0.0 and i % 2 == 0:
+                a = price(T.FINITE_DIFFERENCE, c, O.AMERICAN_CALL, params=dict(params))
+                if a[0] == 'f' and abs(a[1] - an) / c['K'] > tol + DOM_TOL_FD:
+                    ctx.violation(f'FD (theta={theta}) American call without dividends != European',
+                                  dict(case, american=a[1], european=an), clause='no-early-exercise-equal')
+    ctx.count('FINITE_DIFFERENCE scheme parameters (theta, smooth, num_std, num_time_steps)', 2 * nfp, 2 * nfp)
+    lap('fd-params')
+
+    # ------------------------------------------------------------------ 3e. EquityBinomialTree: every payoff x exercise type, deep ITM/OTM
+    from financepy.products.equity.equity_binomial_tree import (EquityBinomialTree, EquityTreePayoffTypes as PT,
+                                                                 EquityTreeExerciseTypes as ET, _value_once)
+    rng = ctx.rng('ebt')
+    tree = EquityBinomialTree()
+    nebt = 40 if ctx.quick() else 500
+    ops, impl, inputs = [], [], []
+
+    def pay(pt, prm, s_):
+        if pt == PT.FWD_CONTRACT:
+            return prm[0] * s_
+        if pt == PT.VANILLA_OPTION:
+            return max(prm[0] * (s_ - prm[1]), 0.0)
+        if pt == PT.DIGITAL_OPTION:
+            return 1.0 if prm[0] * (s_ - prm[1]) >= 0 else 0.0
+        if pt == PT.POWER_CONTRACT:
+            return prm[0] * s_ ** prm[1]
+        if pt == PT.POWER_OPTION:
+            return max(prm[0] * (s_ ** prm[2] - prm[1]), 0.0)
+        if pt == PT.LOG_CONTRACT:
+            return math.log(s_)
+        return max(math.log(s_) - prm[0], 0.0)
+    for i in range(nebt):
+        K = 100.0
+        S = K * rng.choice([0.3, 0.5, 0.7, 0.9, 1.0, 1.1, 1.5, 2.5, rng.uniform(0.3, 3.0)])
+        r = rng.choice([0.0, 0.01, 0.06, 0.1, -0.02])
+        q = rng.choice([0.0, 0.02, 0.08, r])
+        vol = rng.choice([0.1, 0.2, 0.4])
+        years = rng.choice([1, 2])
+        expiry_dt = Date(1, 1, 2016 + years)
+        vdt = Date(1, 1, 2016)
+        nsteps = rng.choice([10, 50, 100, 200])
+        disc = DiscountCurveFlat(vdt, r)
+        divs = DiscountCurveFlat(vdt, q)
+        t = (expiry_dt - vdt) / 365.0
+        r_eff = float(disc.zero_rate(expiry_dt))
+        q_eff = float(-np.log(divs.df(expiry_dt)) / t)
+        sign = rng.choice([1.0, -1.0])
+        for pt, prm in [(PT.VANILLA_OPTION, [sign, K]), (PT.FWD_CONTRACT, [sign * 2.0]), (PT.DIGITAL_OPTION, [sign, K]),
+                        (PT.POWER_CONTRACT, [sign, rng.choice([0.5, 2.0])]), (PT.POWER_OPTION, [sign, K * K, 2.0]),
+                        (PT.LOG_CONTRACT, []), (PT.LOG_OPTION, [math.log(K)])]:
+            prm_a = np.array(prm, dtype=float)
+            case = dict(product='EquityBinomialTree', payoff=pt.name, params=prm, S=S, K=K, r=r, q=q, vol=vol, years=years,
+                        num_steps=nsteps)
+            try:
+                am = float(quiet(tree.value, S, disc, divs, vol, nsteps, vdt, pt, expiry_dt, pt, ET.AMERICAN, prm_a)[0])
+                eu = float(quiet(tree.value, S, disc, divs, vol, nsteps, vdt, pt, expiry_dt, pt, ET.EUROPEAN, prm_a)[0])
+            except Exception as e:  # noqa: BLE001
+                ctx.violation(f'EquityBinomialTree.value raised {type(e).__name__}', case, clause='returns-value')
+                continue
+            now = pay(pt, prm, S)
+            scale = max(K, abs(now), abs(eu)) if pt not in (PT.DIGITAL_OPTION, PT.LOG_CONTRACT, PT.LOG_OPTION) else 1.0
+            inside = abs(r_eff - q_eff) * math.sqrt(t / nsteps) <= vol
+            if inside and am < now - 1e-10 * scale:
+                ctx.violation('EquityBinomialTree American value below the immediate exercise value',
+                              dict(case, american=am, exercise_now=now), clause='american-ge-intrinsic')
+            if inside and am < eu - 1e-10 * scale:
+                ctx.violation('EquityBinomialTree American value below its European value', dict(case, american=am, european=eu),
+                              clause='american-ge-european')
+            if pt == PT.VANILLA_OPTION and nsteps >= 50:
+                an = float(bs_value(S, t, K, r_eff, q_eff, vol, 1 if sign > 0 else 2))
+                err = abs(eu - an) / K
+                madd('EquityBinomialTree vanilla european-err/K (n>=50)', err)
+                if err > EBT_EURO:
+                    ctx.violation('EquityBinomialTree European vanilla value far from the analytic price',
+                                  dict(case, tree=eu, analytic=an), clause='european-converges')
+            if pt == PT.FWD_CONTRACT and inside:
+                exact = prm[0] * S * math.exp(-q_eff * t)
+                madd('EquityBinomialTree forward contract rel err', abs(eu - exact) / abs(exact))
+                if abs(eu - exact) > 1e-9 * abs(exact):
+                    ctx.violation('EquityBinomialTree European forward contract != a S exp(-qT)', dict(case, tree=eu, exact=exact),
+                                  clause='european-converges')
+        # _value_once (vanilla) against the Lean lattice model: exact step count n (parity flag chosen so that n is kept)
+        n1 = max(3, rng.choice([3, 4, 5, 10, 21, 50, 51]))
+        ex = rng.choice([ET.EUROPEAN, ET.AMERICAN])
+        x = float(_value_once(S, r, q, vol, n1, t, PT.VANILLA_OPTION, ex, np.array([sign, K]))[0])
+        ty = (1 if sign > 0 else 2) + (2 if ex == ET.AMERICAN else 0)
+        ops.append(f"crr {f2b(S)} {f2b(r)} {f2b(q)} {f2b(vol)} {n1} {f2b(t)} {ty} {f2b(K)} {1 if n1 % 2 == 0 else 0}")
+        impl.append(x)
+        inputs.append(dict(function='_value_once', S=S, K=K, r=r, q=q, vol=vol, t=t, num_steps=n1, sign=sign, exercise=ex.name))
+    if drivers_ok and ops:
+        try:
+            model = [b2f(z) for z in driver_parallel('C12', ops)]
+            nb = 0
+            for x, m, inp in zip(impl, model, inputs):
+                d = abs(x - m) / max(1e-8, abs(m), 1e-6 * inp['K'])
+                madd('EquityBinomialTree._value_once:impl-vs-model(rel)', d)
+                if not d <= 1e-9:
+                    nb += 1
+                    if nb <= 3:
+                        ctx.broke(f'correspondence EquityBinomialTree._value_once: Lean model != implementation on {inp} (model {m!r}, impl {x!r})')
+        except C.DriverError as e:
+            ctx.broke(f'model driver failed: {str(e)[:300]}')
+    ctx.count('EquityBinomialTree (7 payoffs x 2 exercise types)', 14 * nebt + len(ops), 14 * nebt + len(ops))
+    lap('ebt')
+
     # ------------------------------------------------------------------ 4. BAW / Bjerksund-Stensland
     rng = ctx.rng('approx')
     nap = 900 if ctx.quick() else 9000
